@@ -244,7 +244,8 @@ fn get_swap_transactions<C: ContentAddrStore>(state: &UnsealedState<C>) -> Vec<T
             (tx.outputs[0].value.0 > 0).then_some(())?; // a zero-valued request has no share to compute (0/0 when it is alone on its side)
             state.coins.get_coin(tx.output_coinid(0))?; // ensure that first output is unspent
             let pool_key = named_pool_key(&tx.data)?; // ensure that data contains a pool key
-            state.pools.get(&pool_key)?; // ensure that pool key points to a valid pool
+            let pool = state.pools.get(&pool_key)?; // ensure that pool key points to a valid pool
+            (pool.lefts > 0 && pool.rights > 0).then_some(())?; // a pool emptied by withdrawing all of its liquidity has no price to swap at
             (tx.outputs[0].denom == pool_key.left() || tx.outputs[0].denom == pool_key.right())
                 .then_some(())?; // ensure that the first output is either left or right
             Some(tx)
